@@ -458,11 +458,59 @@ func checkActionTyping(r *Run, ga *GA, pfx string) {
 			}
 			return true
 		})
+		// locals that are nil by their one definition (`value := nil`, a helper's parameter bound to a nil argument), and
+		// the variables an enclosing `if v != nil { … }` has tested
+		localNil := map[types.Object]bool{}
+		ast.Inspect(fd.Body, func(x ast.Node) bool {
+			if as, ok := x.(*ast.AssignStmt); ok && as.Tok == token.DEFINE && len(as.Lhs) == len(as.Rhs) {
+				for i, l := range as.Lhs {
+					if id, ok := l.(*ast.Ident); ok && info.Defs[id] != nil {
+						if rid, ok := ast.Unparen(as.Rhs[i]).(*ast.Ident); ok && rid.Name == "nil" && info.Uses[rid] == types.Universe.Lookup("nil") {
+							localNil[info.Defs[id]] = true
+						}
+					}
+				}
+			}
+			return true
+		})
+		guarded := map[*ast.TypeAssertExpr]map[types.Object]bool{}
+		ast.Inspect(fd.Body, func(x ast.Node) bool {
+			is, ok := x.(*ast.IfStmt)
+			if !ok {
+				return true
+			}
+			be, ok := ast.Unparen(is.Cond).(*ast.BinaryExpr)
+			if !ok || be.Op != token.NEQ {
+				return true
+			}
+			l, rr := ast.Unparen(be.X), ast.Unparen(be.Y)
+			if lid, ok := l.(*ast.Ident); ok && lid.Name == "nil" {
+				l, rr = rr, l
+			}
+			vid, ok1 := l.(*ast.Ident)
+			nid, ok2 := rr.(*ast.Ident)
+			if !ok1 || !ok2 || nid.Name != "nil" || info.Uses[vid] == nil || reassigned[info.Uses[vid]] {
+				return true
+			}
+			ast.Inspect(is.Body, func(y ast.Node) bool {
+				if ta, ok := y.(*ast.TypeAssertExpr); ok {
+					if guarded[ta] == nil {
+						guarded[ta] = map[types.Object]bool{}
+					}
+					guarded[ta][info.Uses[vid]] = true
+				}
+				return true
+			})
+			return true
+		})
 		idx := 0
 		ast.Inspect(fd.Body, func(x ast.Node) bool {
 			ta, ok := x.(*ast.TypeAssertExpr)
 			if !ok || ta.Type == nil || commaOK[ta] {
 				return true
+			}
+			if id, ok := ast.Unparen(ta.X).(*ast.Ident); ok && info.Uses[id] != nil && localNil[info.Uses[id]] && !reassigned[info.Uses[id]] && guarded[ta][info.Uses[id]] {
+				return true // under `if v != nil` with v nil by definition: never executed
 			}
 			idx++
 			key := fmt.Sprintf("%s:assert#%d:%s", fd.Name.Name, idx, types.ExprString(ta))
@@ -483,6 +531,19 @@ func checkActionTyping(r *Run, ga *GA, pfx string) {
 			if dyn == nil {
 				r.Fail("undecided", pfx+".action-assertion", key, ga.prog.pos(ta.Pos()), "type assertion on "+id.Name+": not a label nor an element of one")
 				return true
+			}
+			if guarded[ta][info.Uses[id]] && dyn["nil"] {
+				// tested against nil just outside
+				nd := map[string]bool{}
+				for d := range dyn {
+					if d != "nil" {
+						nd[d] = true
+					}
+				}
+				if len(nd) == 0 {
+					return true
+				}
+				dyn = nd
 			}
 			var bad []string
 			for _, d := range setKeys(dyn) {
@@ -567,7 +628,7 @@ func (ga *GA) opSites() []opSite {
 				v := ast.Unparen(kv.Value)
 				if id, ok := v.(*ast.Ident); ok {
 					if c, ok := info.Uses[id].(*types.Const); ok && fname == "Operator" {
-						site.op = c.Name()
+						site.op = canonConstName(c)
 					}
 				}
 				// the value, through type assertions and single-assignment locals, down to a label parameter
@@ -1403,6 +1464,13 @@ type valuePair struct{ nonNil, nilV bool }
 // a MatchExpression, whether the node is built with a literal (Value != nil)
 // and/or without one.
 func (ga *GA) operatorValuePairing() map[string]valuePair {
+	if ga.prog.SSA != nil && ga.prog.GrammarSSA != nil {
+		// decided on the paths of the actions when every one of them can be interpreted; the reading of the actions'
+		// syntax below is the fallback
+		if out, ok := ga.operatorValuePairingSSA(); ok && len(out) > 0 {
+			return out
+		}
+	}
 	info := ga.prog.Grammar.TypesInfo
 	out := map[string]valuePair{}
 	for n, fd := range ga.onOf {
@@ -1439,7 +1507,7 @@ func (ga *GA) operatorValuePairing() map[string]valuePair {
 					}
 					if id, ok := v.(*ast.Ident); ok {
 						if c, ok := info.Uses[id].(*types.Const); ok {
-							ops = append(ops, c.Name())
+							ops = append(ops, canonConstName(c))
 						} else if pn, ok := params[info.Uses[id]]; ok {
 							if ln := ga.labelNode(n, pn); ln != nil {
 								for c := range ga.consts[ln] {
